@@ -141,6 +141,7 @@ def run(repo: Repo, chk: Check):
                       "otherwise a virtual name '__register.N_' is printed as an operand", floor=2)
     chk.guarded(r09f, repo, chk)
     chk.guarded(r09_exact_integral, repo, chk)
+    chk.guarded(r09_opcode_is_text, repo, chk)
 
 
 # ---------------------------------------------------------------------- R09.b
@@ -596,3 +597,34 @@ def r09_exact_integral(repo: Repo, chk: Check, R="R09.d"):
             raise AnalysisError(f"IC10Operand.__init__: the condition under which '{norm(st)}' runs was not understood")
     if n == 0:
         raise AnalysisError("IC10Operand.__init__: the float -> int normalisation was not found")
+
+
+# ---------------------------------------------------------------------- R09.b (the opcode itself)
+def r09_opcode_is_text(repo: Repo, chk: Check, R="R09.b"):
+    """IC10Instruction.to_string puts self.op into the line by an operation that fails for a missing opcode (None), or checks it: an
+    f-string / str() / format() would print the text 'None' as opcode."""
+    m = repo.mod("types")
+    fn = m.func("IC10Instruction.to_string")
+    chk.saw("types", "IC10Instruction.to_string")
+    cfg = CFG(fn)
+    where = f"{m.path}:{fn.lineno} in IC10Instruction.to_string"
+    uses = [a for a in ast.walk(fn) if isinstance(a, ast.Attribute) and a.attr == "op" and norm(a.value) == "self" and isinstance(a.ctx, ast.Load)]
+    if not uses:
+        raise AnalysisError("IC10Instruction.to_string: self.op is not used")
+    checked = any(isinstance(i, ast.If) and "self.op" in norm(i.test) and ("None" in norm(i.test) or "isinstance" in norm(i.test) or norm(i.test).startswith("not "))
+                  and any(isinstance(x, ast.Raise) for x in ast.walk(i)) for i in ast.walk(fn))
+    tolerant, strict = [], []
+    for a in uses:
+        p = getattr(a, "parent", None)
+        if isinstance(p, ast.FormattedValue) or isinstance(p, ast.Call) and norm(p.func) in ("str", "format", "repr") or isinstance(p, ast.Call) and isinstance(p.func, ast.Attribute) and p.func.attr in ("format", "join"):
+            tolerant.append(norm(p)[:50] if not isinstance(p, ast.FormattedValue) else "{self.op}")
+        elif isinstance(p, ast.BinOp) and isinstance(p.op, ast.Add):
+            strict.append(norm(p)[:50])
+    if tolerant and not checked:
+        chk.bad(R, "types:IC10Instruction.to_string:a missing opcode cannot be printed",
+                f"the opcode enters the line through {tolerant[0]}, which turns None into the text 'None': an instruction whose opcode was never set (an augmented assignment with "
+                f"an operator the table does not have) is emitted as 'None r0 r0 2' instead of failing", {"uses": tolerant}, where)
+    elif strict or checked:
+        chk.ok(R, "types:IC10Instruction.to_string:a missing opcode cannot be printed", {"how": "checked" if checked else "string concatenation"})
+    else:
+        raise AnalysisError("IC10Instruction.to_string: how self.op enters the line was not understood")
